@@ -319,7 +319,7 @@ def one_case(rng, nreq=None):
 
 def cases(rng, tier):
     out = []
-    n = 3000 if tier == "quick" else 40000
+    n = 3000 if tier == "quick" else 200000
     for _ in range(n):
         out.append(one_case(rng))
     # systematic: single request, every single-attempt outcome x disposal x preload x block, followed by a probe request
